@@ -40,6 +40,9 @@ class RealEnv:
     def note(self, k, v):
         self.notes[k] = v
 
+    def cconst(self, re, im):
+        return complex(float(re), float(im))
+
     # -- inputs
     @staticmethod
     def _f(v):
@@ -117,12 +120,21 @@ class RealEnv:
         for x in shape:
             n *= x
         if self.given is not None:
-            flat = [self._f(v) for v in self.given[name]['values']]
+            if dtype.startswith('complex'):
+                flat = [complex(self._f(v[0]), self._f(v[1])) if isinstance(v[0], (list, tuple)) else self._f(v) for v in self.given[name]['values']]
+            else:
+                flat = [self._f(v) for v in self.given[name]['values']]
             t = self.tn.tensor(flat, dtype=self.dt(dtype)).reshape(list(shape))
         else:
+            from .values import PHASES
             t = self.tn.zeros(list(shape), dtype=self.dt(dtype))
             for k, ix in enumerate(pattern):
-                t[tuple(ix)] = abs(float(seeded_fraction(self.seed, name, k)))
+                m = abs(float(seeded_fraction(self.seed, name, k)))
+                if dtype.startswith('complex'):
+                    c, s_ = PHASES[k % len(PHASES)]
+                    t[tuple(ix)] = complex(m * float(c), m * float(s_))
+                else:
+                    t[tuple(ix)] = m
         if source == 'numpy':
             return t.numpy().copy()
         return t
